@@ -2,7 +2,7 @@ SPECIFICATION GSpecSG
 CONSTANTS N = 3
           Names = {"", "a"}
           Devs = {}
-          InitDags <- Dags3
+          InitDags <- Shared3
           MaxMiss = 1
           ModeSet = {1, 2, 4}
           FaultSet = {"none", "cancelFetch"}
